@@ -78,12 +78,26 @@ pub fn run(ctx: &Ctx) -> Report {
             acc
         })
         .reduce(Acc::default, |a, b| a.merge(b));
-    let mut acc = acc_a.merge(acc_b);
+    // (c) the other constructors: ErrorCode::builder(code) with and without a reason for every code
+    // 0..=1100 (accepted exactly for 300..=699, code preserved, encoding decodes to the same value),
+    // Userhash::compute over pairs of the text alphabet (SHA-256 of user ":" realm, RFC 8489 14.4)
+    let mut helper_cases: Vec<Case> = (0..=1100i64).map(|c| Case::new("errorcode-builder", vec![]).args(&[c]).text(&["ERROR-CODE"])).collect();
+    let texts: Vec<Vec<u8>> = values::encode_values(Kind::Username, seed).into_iter().map(|(v, _)| v).filter(|v| v.len() <= 64 && std::str::from_utf8(v).is_ok()).collect();
+    for u in &texts {
+        for r in texts.iter().step_by(3) {
+            let mut d = (u.len() as u16).to_be_bytes().to_vec();
+            d.extend_from_slice(u);
+            d.extend_from_slice(r);
+            helper_cases.push(Case::new("userhash-compute", d).text(&["USERHASH"]));
+        }
+    }
+    let acc_c = crate::props::sweep(helper_cases.into_par_iter(), judge);
+    let mut acc = acc_a.merge(acc_b).merge(acc_c);
     acc.nontrivial = acc.evaluations; // every generated (kind, type code, value) triple is distinct by construction
     Report {
         acc,
         exhaustive: true,
-        rule: "per attribute type: all values of length <= bound; lengths 0..=800 x content patterns (UTF-8 complete/cut/invalid); all 65536 ERROR-CODE class/number pairs x 8 reasons; all 256 family bytes x 7 lengths; algorithm word lists; every type code of the universe as wrong type; encode side over constructible values; byte-lane walk (every byte position x all 256 values) around 2-8 valid base encodings per type, decode and encode side".into(),
+        rule: "per attribute type: all values of length <= bound; lengths 0..=800 x content patterns (UTF-8 complete/cut/invalid); all 65536 ERROR-CODE class/number pairs x 8 reasons; all 256 family bytes x 7 lengths; algorithm word lists; every type code of the universe as wrong type; encode side over constructible values; byte-lane walk (every byte position x all 256 values) around 2-8 valid base encodings per type, decode and encode side; ErrorCode::builder for every code 0..=1100 x 4 reasons; Userhash::compute over pairs of the text alphabet".into(),
         bounds: json!({"short_values_max_len": max_short, "kinds": 19, "pattern_lengths": "0..=800"}),
         assumptions: vec!["DON'T-CARE regions (DESIGN.md C08) are executed for panics only".into()],
         ..Default::default()
@@ -232,6 +246,57 @@ pub fn judge(case: &Case, acc: &mut Acc) {
                 }
             }
             let _ = typed.display();
+        }
+        "errorcode-builder" => {
+            use stun_types::attribute::ErrorCode;
+            let code = case.args[0] as u16;
+            for reason in [None, Some(""), Some("because"), Some("caf\u{e9} \u{2603}")] {
+                let b = match reason {
+                    None => ErrorCode::builder(code).build(),
+                    Some(r) => ErrorCode::builder(code).reason(r).build(),
+                };
+                match b {
+                    Err(_) if !(300..=699).contains(&code) => acc.outcome("builder: out-of-range code refused"),
+                    Err(e) => viol!(acc, P, "errorcode-builder-refuses", case, "ErrorCode::builder refuses a code in 300..=699", "Ok", format!("{e:?}")),
+                    Ok(_) if !(300..=699).contains(&code) => viol!(acc, P, "errorcode-builder-accepts", case, "ErrorCode::builder accepts a code outside 300..=699", "Err", "Ok"),
+                    Ok(e) => {
+                        acc.outcome("builder: constructed");
+                        let want_reason = reason.map(|r| r.to_string());
+                        if e.code() != code || want_reason.as_ref().is_some_and(|r| r != e.reason()) {
+                            viol!(acc, P, "errorcode-builder-value", case, "ErrorCode::builder does not keep the code / reason it was given", format!("({code}, {want_reason:?})"), format!("({}, {:?})", e.code(), e.reason()));
+                        }
+                        let raw = e.to_raw().value.to_vec();
+                        let mut want = vec![0, 0, (code / 100) as u8, (code % 100) as u8];
+                        want.extend_from_slice(e.reason().as_bytes());
+                        if raw != want {
+                            viol!(acc, P, "errorcode-builder-wire", case, "an ERROR-CODE made by the builder does not encode per RFC 8489 14.8", fmt_bytes(&want), fmt_bytes(&raw));
+                        }
+                        match ErrorCode::from_raw(&RawAttribute::new(AttributeType::new(0x0009), &raw)) {
+                            Ok(back) if back.code() == code && back.reason() == e.reason() => {}
+                            other => viol!(acc, P, "errorcode-builder-roundtrip", case, "an ERROR-CODE made by the builder does not decode to itself", format!("({code}, {:?})", e.reason()), format!("{other:?}")),
+                        }
+                    }
+                }
+            }
+        }
+        "userhash-compute" => {
+            use stun_types::attribute::Userhash;
+            let ul = u16::from_be_bytes([case.data[0], case.data[1]]) as usize;
+            let user = std::str::from_utf8(&case.data[2..2 + ul]).unwrap();
+            let realm = std::str::from_utf8(&case.data[2 + ul..]).unwrap();
+            let mut input = user.as_bytes().to_vec();
+            input.push(b':');
+            input.extend_from_slice(realm.as_bytes());
+            let want = crate::refimpl::crypto::sha256(&input);
+            let got = Userhash::compute(user, realm);
+            acc.outcome("userhash computed");
+            if got[..] != want[..] {
+                viol!(acc, P, "userhash-compute", case, "Userhash::compute is not SHA-256(username \":\" realm) (RFC 8489 14.4)", crate::refimpl::crypto::hex(&want), crate::refimpl::crypto::hex(&got));
+            }
+            let a = Userhash::new(got);
+            if a.hash() != &got {
+                viol!(acc, P, "userhash-new", case, "Userhash::new does not keep the hash", crate::refimpl::crypto::hex(&got), crate::refimpl::crypto::hex(a.hash()));
+            }
         }
         other => panic!("harness: unknown C08 op {other}"),
     }
